@@ -25,6 +25,8 @@ inductive Val where
   /-- an element of a dtype the code does not treat specially (float16/32, complex, bytes, object, datetime64):
       carried as canonical text. -/
   | o (t : List Char)
+  /-- an element of a bytes series (`S<n>`), as latin-1 text. -/
+  | y (v : List Char)
   deriving DecidableEq, Repr
 
 /-- A fill value as the caller passes it. -/
@@ -47,18 +49,23 @@ inductive DType where
   | bool
   | str (width : Nat)          -- NumPy '<U{width}'
   | other (casts : List (PyVal × Option Val))
+  /-- bytes (`np.issubdtype(dtype, np.bytes_)`): `None` ↦ b''; any other fill value goes to `np.full` as it is
+      (NumPy's cast is an input, as for `other`). -/
+  | bytes (casts : List (PyVal × Option Val))
   deriving DecidableEq, Repr
 
 /-- Which arm of the `if / elif` chain of `reindex` a dtype takes, by NumPy kind character, in the code's order:
-    `issubdtype(dtype, bool)`, `issubdtype(dtype, np.integer)`, `issubdtype(dtype, str)`, else nothing. -/
+    `issubdtype(dtype, bool)`, `issubdtype(dtype, np.integer)`, `issubdtype(dtype, str)`,
+    `issubdtype(dtype, np.bytes_)`, else nothing. -/
 inductive Branch where
-  | bool | int | str | passthrough
+  | bool | int | str | bytes | passthrough
   deriving DecidableEq, Repr
 
 def branchOf (kind : Char) : Branch :=
   if kind == 'b' then .bool
   else if kind == 'i' || kind == 'u' || kind == 'm' then .int
   else if kind == 'U' then .str
+  else if kind == 'S' then .bytes
   else .passthrough
 
 /-- Value range of an integer-like dtype of `size` bytes. -/
@@ -72,6 +79,7 @@ def mkDType (kind : Char) (size : Nat) (casts : List (PyVal × Option Val)) : DT
   | .bool => .bool
   | .int => .int (intRange kind size).1 (intRange kind size).2
   | .str => .str (size / 4)
+  | .bytes => .bytes casts
   | .passthrough => if kind == 'f' && size == 8 then .float else .other casts
 
 inductive Err where
@@ -93,6 +101,7 @@ def defaultFill : DType → Val
   | .bool => .b false
   | .str _ => .s []
   | .other _ => .o []           -- not used: `coerce` asks the cast table
+  | .bytes _ => .y []
 
 def boolText (b : Bool) : List Char := if b then ['T', 'r', 'u', 'e'] else ['F', 'a', 'l', 's', 'e']
 
@@ -112,6 +121,7 @@ def floatOfInt (v : Int) : Nat := (Float.ofInt v).toBits.toNat
 def coerce : DType → PyVal → Except Err Val
   | .other casts, v => castOther casts v
   | d, .none => .ok (defaultFill d)
+  | .bytes casts, v => castOther casts v
   -- bool(value)
   | .bool, .b v => .ok (.b v)
   | .bool, .i v => .ok (.b (v != 0))
@@ -144,15 +154,17 @@ def encode : Except Err Val → String × Int × Bool × List Char
   | .ok (.f bits) => if bits = nanBits then ("nan", 0, false, []) else ("f", bits, false, [])
   | .ok (.s v) => ("s", 0, false, v)
   | .ok (.o t) => ("o", 0, false, t)
+  | .ok (.y v) => ("y", 0, false, v)
   | .error _ => ("err", 0, false, [])
 
-/-- The property's default table by NumPy kind: False, 0, NaN (float and complex), ''. -/
+/-- The property's default table by NumPy kind: False, 0, NaN (float and complex), '' (`<U`: '', bytes: b''). -/
 def propertyDefault (kind : Char) : Option (String × Int × Bool × List Char) :=
   if kind == 'b' then some ("b", 0, false, [])
   else if kind == 'i' || kind == 'u' then some ("i", 0, false, [])
   else if kind == 'f' || kind == 'c' then some ("nan", 0, false, [])
   else if kind == 'U' then some ("s", 0, false, [])
-  else none          -- bytes, object, datetime64, timedelta64: not in the property's table
+  else if kind == 'S' then some ("y", 0, false, [])     -- the empty string of a bytes series: b''
+  else none          -- object, datetime64, timedelta64: not in the property's table
 
 structure Series where
   dtype : DType
